@@ -98,6 +98,7 @@ pub fn gen_case(prop: &str, tier: Tier, seed: u64) -> Case {
             c
         }
         "C11" => seqprops::gen_c11(tier, seed),
+        "C12" if seed % 64 == 1 => ioprops::gen_delete_fault(tier, seed, "C12"),
         "C12" if seed % 8 == 0 => thrprops::gen_c12t(tier, seed),
         "C12" => seqprops::gen_c12(tier, seed),
         "C16" if seed % 8 == 0 => thrprops::gen_c16t(tier, seed),
@@ -106,6 +107,7 @@ pub fn gen_case(prop: &str, tier: Tier, seed: u64) -> Case {
         "C02" => crashprops::gen_c02(tier, seed),
         "C09" if seed % 4 == 0 => thrprops::gen_c09t(tier, seed),
         "C09" => crashprops::gen_c09(tier, seed),
+        "C10" if seed % 16 == 1 => ioprops::gen_delete_fault(tier, seed, "C10"),
         "C10" if seed % 4 == 0 => thrprops::gen_c10t(tier, seed, "C10"),
         "C10" => crashprops::gen_c10(tier, seed),
         "C13" if seed % 3 == 0 => thrprops::gen_c13t(tier, seed),
@@ -124,6 +126,7 @@ pub fn run_case(case: &Case, dir: PathBuf) -> Outcome {
     }
     match case.prop.as_str() {
         "C11" if matches!(case.fault, Fault::Crash { .. }) => crashprops::run_faulty(case, dir),
+        "C10" | "C12" if matches!(case.fault, Fault::Io { .. }) => ioprops::run_delete_fault(case, dir),
         "C01" | "C04" | "C05" | "C07" | "C08" | "C11" | "C12" | "C16" | "C18" => seqprops::run_seq(case, dir),
         "C02" | "C09" | "C10" => crashprops::run_faulty(case, dir),
         "C13" => ioprops::run_io(case, dir),
